@@ -1,6 +1,6 @@
 (* C05 - property theorems only.  Each is closed by `exact` of a lemma of C05_Proofs.v / C05_HalfClose.v / C05_Delay.v. *)
 From Coq Require Import List NArith Bool.
-From Dae Require Import C05_Spec C05_Model C05_Proofs C05_HCDefs C05_HalfClose C05_Delay C05_PoolModel C05_PoolProofs.
+From Dae Require Import C05_Spec C05_Model C05_Proofs C05_HCDefs C05_HalfClose C05_Delay C05_PoolModel C05_PoolProofs C05_BufioModel C05_BufioProofs.
 From Dae.gen Require Import C05_Extracted.
 Import ListNotations.
 Open Scope N_scope.
@@ -143,6 +143,35 @@ Example C05_nonvacuous_alias_witness :
   /\ map (fun o => match o with Some c => pending c | None => [] end) (stacks_at_relay false w_conns (mkHeap [] []))
   = [firstn 16 w_ssh16; firstn 16 w_socks].
 Proof. exact alias_witness_bytes. Qed.
+
+(* The port-53 detection reader as storage (C05_BufioModel): TakeRelayPrefix hands out a view INTO bufio's
+   internal buffer and tryRelayGatherWrite may Read once before it writes that view.  With the reader handleConn
+   builds (size c05_bufio_size, extracted from the source: bufio.NewReader = 4096) and the relay buffer
+   (c05_relay_buf = 32768 >= 4096), that Read takes bufio's "large read, empty buffer" branch - it goes straight
+   into the relay buffer and never touches the internal buffer - so for every reader state, every pending input
+   and either TIOCINQ answer the bytes written are exactly the buffered bytes followed by the bytes just read,
+   and nothing is lost or duplicated. *)
+Theorem C05_bufio_prefix_safe :
+  forall pend b incoming,
+    let '(written, b2, rest) := gather c05_bufio_size c05_relay_buf pend b incoming in
+    written = buffered b ++ (if pend then take c05_relay_buf incoming else [])
+    /\ written ++ buffered b2 ++ rest = buffered b ++ incoming.
+Proof. exact bufio_prefix_safe_proof. Qed.
+Print Assumptions C05_bufio_prefix_safe.
+
+(* the variant with a reader larger than the relay buffer (NewReaderSize(lConn, 2+65535)) is refuted: the Read
+   refills the internal buffer from offset 0 and overwrites the unsent prefix *)
+Theorem C05_bufio_large_reader_refuted :
+  exists b incoming,
+    let '(written, _, _) := gather 65537 c05_relay_buf true b incoming in
+    written <> buffered b ++ take c05_relay_buf incoming.
+Proof. exact large_reader_refuted_proof. Qed.
+Print Assumptions C05_bufio_large_reader_refuted.
+
+Example C05_nonvacuous_bufio_reader :
+  fst (fst (gather 65537 c05_relay_buf true w_reader [1;2;3])) = [1;2;3;101;108;108;111; 1;2;3]
+  /\ fst (fst (gather c05_bufio_size c05_relay_buf true w_reader [1;2;3])) = [0;5;104;101;108;108;111; 1;2;3].
+Proof. exact large_reader_witness. Qed.
 
 (* Non-vacuity / regression examples: the inputs that refuted the full statements before the repairs. *)
 Example C05_nonvacuous_port53_fallback :
